@@ -24,6 +24,7 @@ pub fn run(cx: &mut Ctx) {
     crate::rules::c01::soft_keywords_pub(cx, "C08.S1");
     crate::rules::c10::kind_set_agreement_pub(cx, "C08.S2");
     line_ending_in_strings(cx);
+    line_break_classes(cx);
 }
 
 fn token_payloads(cx: &mut Ctx) {
@@ -117,5 +118,107 @@ fn line_ending_in_strings(cx: &mut Ctx) {
         cx.ok(rule, "only next_char()/new() take characters out of the window; every other function inspects window slots and consumes through next_char()");
     } else {
         cx.fail(rule, &format!("{}/raw-consumers", rule), &lx.rel, &format!("{:?} take characters from the window without next_char(): they see raw CR / CR LF", bad));
+    }
+}
+
+
+/// C08.N3: wherever the raw window is tested for a line break, LF and a lone CR are treated alike.
+fn line_break_classes(cx: &mut Ctx) {
+    use crate::eval::{Machine, V};
+    let rule = "C08.N3";
+    cx.rule(rule, "the three line-ending conventions reach the same code: every `match` on raw window slots (`self.window[0]`, `[1]`, `[..2]`, `[..3]`, and the dispatch character of consume_character) whose patterns mention '\\n' or '\\r' selects the same arm for a window with LF at some slot and for the same window with a lone CR there (CR LF is one line break and is folded by next_char(), which alone may tell the conventions apart); decided by evaluating the arm patterns on all windows over {LF, CR, a letter, end of input}");
+    cx.floor(rule, 4);
+    let Some(lx) = lr::load_lexer(cx, rule) else { return };
+    let none = |_: &V, _: &str, _: &[V]| -> Option<V> { None };
+    for (f, _) in lr::lexer_methods(&lx) {
+        let fname = f.sig.ident.to_string();
+        if fname == "next_char" || fname == "new" {
+            continue;
+        }
+        let dispatch_param: Option<String> = if fname == "consume_character" { f.sig.inputs.iter().nth(1).and_then(|a| if let syn::FnArg::Typed(pt) = a { Some(sm::tsc(&pt.pat)) } else { None }) } else { None };
+        let mut matches: Vec<&syn::ExprMatch> = vec![];
+        sm::for_each_expr_in_block(&f.block, |e| {
+            if let syn::Expr::Match(m) = e {
+                matches.push(m);
+            }
+        });
+        let mut k = 0usize;
+        for m in matches.iter() {
+            let scrut = sm::tsc(&m.expr);
+            let width: Option<(usize, bool)> = match scrut.as_str() {
+                "self.window[0]" | "self.window[1]" | "self.window[2]" => Some((1, true)),
+                "self.window[..2]" => Some((2, true)),
+                "self.window[..3]" | "self.window[..]" => Some((3, true)),
+                s if Some(s.to_string()) == dispatch_param => Some((1, false)),
+                _ => None,
+            };
+            let Some((width, optional)) = width else { continue };
+            let mentions = m.arms.iter().any(|a| {
+                let t = sm::tsc(&a.pat);
+                t.contains("'\\n'") || t.contains("'\\r'")
+            });
+            if !mentions {
+                continue;
+            }
+            // alphabet per slot
+            let alpha: Vec<Option<char>> = if optional { vec![Some('\n'), Some('\r'), Some('a'), None] } else { vec![Some('\n'), Some('\r'), Some('a')] };
+            let mut windows: Vec<Vec<Option<char>>> = vec![vec![]];
+            for _ in 0..width {
+                windows = windows.into_iter().flat_map(|w| alpha.iter().map(move |c| { let mut x = w.clone(); x.push(*c); x })).collect();
+            }
+            let val = |w: &Vec<Option<char>>| -> V {
+                let slot = |c: &Option<char>| if optional { V::Opt(c.map(|c| Box::new(V::Char(c as u32)))) } else { V::Char(c.unwrap() as u32) };
+                if width == 1 { slot(&w[0]) } else { V::List(w.iter().map(slot).collect()) }
+            };
+            let arm_of = |w: &Vec<Option<char>>| -> Result<String, String> {
+                let v = val(w);
+                for (i, a) in m.arms.iter().enumerate() {
+                    let mut mach = Machine::new(&none);
+                    if mach.pat_matches(&a.pat, &v)? {
+                        // a guarded arm that mentions no line break is transparent for this rule; one that does is not decidable here
+                        if a.guard.is_some() {
+                            return Ok(format!("{}?", i));
+                        }
+                        return Ok(i.to_string());
+                    }
+                }
+                Ok("none".into())
+            };
+            k += 1;
+            let key = format!("{}/{}/{}#{}", rule, fname, scrut, k);
+            let mut bad: Vec<String> = vec![];
+            let mut err: Option<String> = None;
+            'w: for w in &windows {
+                for i in 0..width {
+                    if w[i] != Some('\n') {
+                        continue;
+                    }
+                    let mut w2 = w.clone();
+                    w2[i] = Some('\r');
+                    if i + 1 < width && w2[i + 1] == Some('\n') {
+                        continue; // CR LF: one line break, a different window
+                    }
+                    match (arm_of(w), arm_of(&w2)) {
+                        (Ok(a), Ok(b)) => {
+                            if a != b {
+                                bad.push(format!("{:?} -> arm {}, {:?} -> arm {}", w, a, w2, b));
+                            }
+                        }
+                        (Err(e), _) | (_, Err(e)) => {
+                            err = Some(e);
+                            break 'w;
+                        }
+                    }
+                }
+            }
+            if let Some(e) = err {
+                cx.fail(rule, &format!("{}/uninterpretable", key), &lx.loc(&m.expr), &format!("{}: the patterns of the match on {} cannot be evaluated ({})", fname, scrut, e));
+            } else if bad.is_empty() {
+                cx.ok(rule, &format!("{}: match on {} treats LF and a lone CR alike ({} windows)", fname, scrut, windows.len()));
+            } else {
+                bad.truncate(3);
+                cx.fail(rule, &key, &lx.loc(&m.expr), &format!("{}: the match on {} tells a lone CR from LF: {}: the same program with another line-ending convention lexes differently", fname, scrut, bad.join("; ")));
+            }
+        }
     }
 }
